@@ -703,6 +703,20 @@ func (g *Graph) Walk(start Point, visit func(i ssa.Instruction, trail []int) Act
 			}
 		}
 		allowed := g.Succs[s]
+		if f0, ok := g.edgeFact(s, g.Succs[s][0]); ok && incoming != nil {
+			// a comparison of the phi with a constant, entered with a constant: the
+			// first test of "for i := 0; i < 256; i++" cannot fail
+			if _, op, k, isCmp := phiConstCmp(f0.Cond); isCmp {
+				if a, isK := ConstInt(incoming); isK {
+					taken := g.Succs[s][0]
+					if evalCmp(a, op, k) != f0.Val {
+						taken = g.Succs[s][1]
+					}
+					allowed = []int{taken}
+					incoming = nil
+				}
+			}
+		}
 		if incoming != nil {
 			if cls := classify(incoming, g.EdgeFacts(p, s)); cls != clsUnknown {
 				var keep []int
@@ -800,10 +814,54 @@ func (g *Graph) phiBranch(b int) (*ssa.Phi, bool) {
 		return nil, false
 	}
 	phi, _, ok := phiTest(f)
+	if !ok {
+		phi, _, _, ok = phiConstCmp(f.Cond)
+	}
 	if !ok || phi.Block() != blk {
 		return nil, false
 	}
 	return phi, true
+}
+
+// phiConstCmp recognises "phi OP constant" (or the mirrored form) on integers.
+func phiConstCmp(cond ssa.Value) (phi *ssa.Phi, op token.Token, k int64, ok bool) {
+	b, isB := cond.(*ssa.BinOp)
+	if !isB {
+		return nil, 0, 0, false
+	}
+	switch b.Op {
+	case token.LSS, token.LEQ, token.GTR, token.GEQ, token.EQL, token.NEQ:
+	default:
+		return nil, 0, 0, false
+	}
+	if p, isP := b.X.(*ssa.Phi); isP {
+		if c, isK := ConstInt(b.Y); isK {
+			return p, b.Op, c, true
+		}
+	}
+	if p, isP := b.Y.(*ssa.Phi); isP {
+		if c, isK := ConstInt(b.X); isK {
+			mirror := map[token.Token]token.Token{token.LSS: token.GTR, token.LEQ: token.GEQ, token.GTR: token.LSS, token.GEQ: token.LEQ, token.EQL: token.EQL, token.NEQ: token.NEQ}
+			return p, mirror[b.Op], c, true
+		}
+	}
+	return nil, 0, 0, false
+}
+
+func evalCmp(a int64, op token.Token, b int64) bool {
+	switch op {
+	case token.LSS:
+		return a < b
+	case token.LEQ:
+		return a <= b
+	case token.GTR:
+		return a > b
+	case token.GEQ:
+		return a >= b
+	case token.EQL:
+		return a == b
+	}
+	return a != b
 }
 
 // Exit describes how a path left the function.
